@@ -245,6 +245,22 @@ fn term(raw: &RawTerm, dim: Option<&Dim>) -> (Expr, Dim) {
             if raw.kind < 6 {
                 let k = pick_idx(raw.fact, p.all.len());
                 (Expr::Fact(p.all[k].0.clone()), p.all[k].1)
+            } else if raw.kind == 6 {
+                // a sub-phrase: some of the words of a fact (whatever constant that resolves to);
+                // its dimension is only known after asking, so it is used in products only
+                let k = pick_idx(raw.fact, p.all.len());
+                let words: Vec<&str> = p.all[k].0.split(' ').collect();
+                let mask = (raw.fact as usize).wrapping_mul(2654435761) >> 7;
+                let mut sub: Vec<&str> = words.iter().enumerate().filter(|(i, _)| (mask >> i) & 1 == 1).map(|(_, w)| *w).collect();
+                if sub.is_empty() {
+                    sub.push(words[mask % words.len()]);
+                }
+                let toks: Vec<String> = sub.iter().map(|s| s.to_string()).collect();
+                if crate::facts::typable(&toks) {
+                    (Expr::Fact(toks.join(" ")), [99, 0, 0, 0, 0, 0, 0, 0])
+                } else {
+                    (Expr::Fact(p.all[k].0.clone()), p.all[k].1)
+                }
             } else if raw.kind < 8 {
                 (Expr::Num(raw.lit.clone()), crate::units_ref::ZERO_DIM)
             } else {
@@ -282,18 +298,33 @@ fn expression() -> impl Strategy<Value = Expr> {
                 8 => (Op::Div, false),
                 _ => (Op::Add, false), // mostly incommensurable: error cases
             };
-            let (t, td) = term(rt, if same { Some(&dim) } else { None });
+            let (mut t, mut td) = term(rt, if same && dim[0] != 99 { Some(&dim) } else { None });
+            let (op, _same) = if dim[0] == 99 || td[0] == 99 {
+                // unknown dimension on either side: products only
+                (if *o % 2 == 0 { Op::Mul } else { Op::Div }, false)
+            } else {
+                (op, same)
+            };
+            if td[0] == 99 {
+                td = crate::units_ref::ZERO_DIM;
+                dim[0] = 99;
+            }
+            let _ = &mut t;
             if *paren {
                 e = Expr::Paren(Box::new(e));
             }
             e = Expr::bin(op, e, t);
+            let unknown = dim[0] == 99;
             match op {
                 Op::Mul => dim = crate::units_ref::dim_add(&dim, &td, 1),
                 Op::Div => dim = crate::units_ref::dim_add(&dim, &td, -1),
                 _ => {}
             }
+            if unknown {
+                dim[0] = 99;
+            }
         }
-        if let Some(raw) = cast {
+        if let (Some(raw), true) = (cast, dim[0] != 99) {
             let sp = build_spelling(&raw, &dim);
             if !sp.factors.is_empty() {
                 e = Expr::Cast(Box::new(e), sp);
@@ -328,9 +359,35 @@ pub fn run_check(ctx: &Ctx) {
     let nh = ctx.tier.pick(160usize, 3000);
     let per_shard = (nh + ctx.threads - 1) / ctx.threads;
     let pool_q: Vec<DCase> = ctx.sample_values("history-queries", &exprs(), 400).iter().filter_map(|es| make_case(es)).collect();
+    // clusters of confusable phrases: phrases sharing a long common prefix (a lookup
+    // cache keyed on a truncated or normalised phrase would mix them up)
+    let clusters: Vec<Vec<DCase>> = {
+        let p = pool();
+        let mut out = Vec::new();
+        for i in 0..120u64 {
+            let h = crate::runner::derive_seed(ctx.seed, "C18", "cluster", i as usize);
+            let base = &p.all[(h % p.all.len() as u64) as usize].0;
+            let k = [6usize, 10, 14, 16, 18, 22][((h >> 20) % 6) as usize].min(base.len());
+            let Some(prefix) = base.get(..k) else { continue };
+            let mut members: Vec<&String> = p.all.iter().map(|x| &x.0).filter(|q| q.starts_with(prefix)).collect();
+            members.sort();
+            members.dedup();
+            if members.len() < 2 {
+                continue;
+            }
+            let start = ((h >> 32) as usize) % members.len();
+            let picked: Vec<DCase> = (0..members.len().min(5)).filter_map(|j| make_case(&[Expr::Fact(members[(start + j) % members.len()].clone())])).collect();
+            if picked.len() >= 2 {
+                out.push(picked);
+            }
+        }
+        out
+    };
+    ctx.put("confusable_phrase_clusters", json!(clusters.len()));
     std::thread::scope(|s| {
         for shard in 0..ctx.threads {
             let pool_q = &pool_q;
+            let clusters = &clusters;
             s.spawn(move || {
                 for h in 0..per_shard {
                     let hid = (shard * per_shard + h) as u64;
@@ -341,6 +398,14 @@ pub fn run_check(ctx: &Ctx) {
                     };
                     let len = 5 + next() % 26;
                     let mut qs: Vec<&DCase> = (0..len).map(|_| &pool_q[next() % pool_q.len()]).collect();
+                    // a cluster of confusable phrases, scattered
+                    if !clusters.is_empty() && next() % 10 < 8 {
+                        let cl = &clusters[next() % clusters.len()];
+                        for c in cl {
+                            let at = next() % (qs.len() + 1);
+                            qs.insert(at, c);
+                        }
+                    }
                     // force a repeat
                     let r = qs[next() % qs.len()];
                     qs.push(r);
